@@ -1,2 +1,3 @@
 from . import leaf  # noqa
 from . import tables  # noqa
+from . import classes  # noqa
